@@ -15,7 +15,10 @@ DAY = 86400
 
 
 class HarnessError(Exception):
-    pass
+    """the tool's own output contradicts the state the harness tracks (status histogram vs tracked justsynced bits,
+    a sync/status command failing, an incomplete dump): a comparison failure, reported as a violation.
+    Any *other* exception raised inside a scenario is harness bookkeeping: the scenario is retried once and, if it
+    fails again before having reported any disagreement, recorded as inconclusive in the evidence notes."""
 
 
 class StopScenario(Exception):
@@ -206,7 +209,8 @@ class Arr:
             # pending files whose every block lies in stripes that are now synced are done
             for key in list(self.pending):
                 f = self.files[key]
-                if all(not blocks[f['start'] + i]['unsynced'] for i in range(f['nblk'])) and all(blocks[f['start'] + i]['used'] for i in range(f['nblk'])):
+                pos = [f['start'] + i for i in range(f['nblk'])]
+                if all(q < len(blocks) and not blocks[q]['unsynced'] and blocks[q]['used'] for q in pos):
                     self.pending.discard(key)
         ws = self.words(blocks)
         self.check_hist(ws, hist, 'after sync')
@@ -784,8 +788,8 @@ def scenario_deleted(a, rounds, viol):
             # a new file of the same size on the same disk takes the freed positions (CHG over DELETED)
             a.add_files([(vd, vf['nblk'], vf['start'])])
         # record the scan without processing the victim's stripes
-        nblk = max(a.alloc.values())
-        free = [p for p in range(nblk) if p not in vpos]
+        # a stripe inside the synced parity (it holds a block of an already synced file) that is not one of the victim's
+        free = sorted(set(p for d in a.disks for p, (nm, _) in a.owner[d].items() if (d, nm) not in a.pending and p not in vpos))
         if not free:
             break
         start = rng.choice(free)          # (a start beyond the parity size is refused by the tool)
@@ -1003,9 +1007,11 @@ def main(tier, replay=None):
 
     stats_all = []
 
-    def run_scenario(spec):
+    inconclusive = []
+
+    def run_scenario(spec, attempt=1):
         kind, idx, seed, ndisk, npar, t0, steps = spec
-        import random
+        import random, traceback
         rng = random.Random(seed)
         stats = {'tool_runs': 0, 'scrubs': 0, 'fixes': 0, 'refused': 0, 'selected_total': 0, 'plans': {}, 'cases': [], 'eio_scrubs': 0,
                  'pending_scrubs': 0, 'changed_scrubs': 0, 'deleted_scrubs': 0,
@@ -1014,6 +1020,7 @@ def main(tier, replay=None):
         m = Model(model_exe)
         a = Arr(name, tool, shim, m, rng, ndisk, npar, t0, viol_for(name), stats)
         a.spec = list(spec)
+        retry = False
         try:
             if kind == 'walk':
                 scenario_walk(a, steps, a.viol)
@@ -1023,14 +1030,28 @@ def main(tier, replay=None):
                 scenario_ties(a, steps, a.viol)
         except StopScenario:
             pass
-        except Exception as e:
-            import traceback
+        except HarnessError as e:
+            # the tool contradicts the tracked state: a comparison failure
             with lock:
-                chk.notes.append('harness error in %s: %s' % (name, (str(e) + ' | ' + traceback.format_exc()[-400:])[:700]))
-                stats['harness_error'] = '%s: %s' % (type(e).__name__, str(e)[:300])
+                stats['harness_error'] = {'error': 'HarnessError: %s' % str(e)[:600], 'spec': list(spec), 'scrub_no': a.nscrub,
+                                          'traceback': traceback.format_exc()[-1500:], 'history_tail': a.history[-6:]}
+        except Exception as e:
+            tb = traceback.format_exc()
+            if a.failed:
+                pass                # a disagreement was already reported for this array; its state is not meaningful any more
+            elif attempt == 1:
+                retry = True
+            else:
+                with lock:
+                    inconclusive.append({'scenario': name, 'spec': list(spec), 'scrub_no': a.nscrub, 'error': '%s: %s' % (type(e).__name__, str(e)[:300]),
+                                         'traceback': tb[-1500:]})
+                    chk.notes.append('inconclusive: scenario %s stopped after %d checked scrubs by a harness bookkeeping exception (%s: %s), '
+                                     'twice; the scrubs compared before it are counted, nothing was compared after it' % (name, a.nscrub, type(e).__name__, str(e)[:200]))
         finally:
             m.close()
             shutil.rmtree(a.root, ignore_errors=True)
+        if retry:
+            return run_scenario(spec, attempt=2)
         with lock:
             stats_all.append(stats)
 
@@ -1112,7 +1133,9 @@ def main(tier, replay=None):
     cases = [c for s in stats_all for c in s['cases']]
     herr = [s['harness_error'] for s in stats_all if 'harness_error' in s]
     if herr and not chk.violations:
-        chk.violation('harness', 'the correspondence harness could not follow the tool (layout or dump not as expected): %s' % herr[0], {'errors': herr}, no_input=True)
+        chk.violation('harness', 'the tool contradicts the state tracked by the correspondence harness: %s' % herr[0]['error'],
+                      {'spec': herr[0]['spec'], 'scrub_no': herr[0]['scrub_no'], 'errors': herr}, no_input=True)
+    chk.cov['inconclusive_scenarios'] = inconclusive
     plans = {}
     for s in stats_all:
         for k, v in s['plans'].items():
